@@ -59,7 +59,7 @@ Driver for property C03.  One operation per line (tokens separated by single spa
       evaluated model - parsing the re-marshalled bytes gives the same class, serial, flags, otherFlags, body bytes and every
       attribute except `sender` = the given name: `1` | `0`; `-` otherwise.
 
-attr = N | s<strhex> | i<dec> | b0 | b1 | d<16 hex> | ?<kind>
+attr = N | s<strhex> | i<dec> | b0 | b1 | d<16 hex> | L[<attr>,…] | D[<attr>:<attr>,…] | ?<kind>
 
 `gen=` (build and parse answers): cross-check of the header fragment (Msg/HeaderCode.lean) against the GENERAL
 code model of the wire codec (Wire/Code.lean, C01/C02) on the header signature `yyyyuua(yv)`:
@@ -122,13 +122,26 @@ def fds? (t : String) : Option (Option (List PyVal)) :=
 
 def tf (b : Bool) : String := if b then "T" else "F"
 
+mutual
+/-- A header attribute value as one token: N | b0 | b1 | i<dec> | d<16 hex> | s<strhex> | L[<value>,…] | D[<key>:<value>,…]
+(containers: a known header field that a peer sent with a container-typed variant; every item is followed by a comma). -/
 def attrStr : PyVal → String
   | .none => "N"
   | .bool b => if b then "b1" else "b0"
   | .int _ n => "i" ++ toString n
   | .float w => "d" ++ u64ToHex w
   | .str _ s => "s" ++ charsToHex s
+  | .list xs => "L[" ++ attrStrs xs ++ "]"
+  | .tuple xs => "L[" ++ attrStrs xs ++ "]"
+  | .dict kvs => "D[" ++ attrPairs kvs ++ "]"
   | _ => "?other"
+def attrStrs : List PyVal → String
+  | [] => ""
+  | x :: xs => attrStr x ++ "," ++ attrStrs xs
+def attrPairs : List (PyVal × PyVal) → String
+  | [] => ""
+  | (k, v) :: kvs => attrStr k ++ ":" ++ attrStr v ++ "," ++ attrPairs kvs
+end
 
 /-- The strict specification decoder on the bytes (`-` for long messages: it re-encodes). -/
 def wfBit (raw : Bytes) : String :=
